@@ -24,10 +24,13 @@ func (n *Namespace) Use(f NspMiddlewareFunc) {
 }
 
 func (n *Namespace) runMiddlewares(socket *serverSocket, handshake *Handshake) error {
+	// Middlewares run without the mutex held: a middleware may call Use.
 	n.middlewareFuncsMu.RLock()
-	defer n.middlewareFuncsMu.RUnlock()
+	funcs := make([]NspMiddlewareFunc, len(n.middlewareFuncs))
+	copy(funcs, n.middlewareFuncs)
+	n.middlewareFuncsMu.RUnlock()
 
-	for _, f := range n.middlewareFuncs {
+	for _, f := range funcs {
 		err := f(socket, handshake)
 		if err != nil {
 			return &middlewareError{v: err}
@@ -71,10 +74,13 @@ func (s *serverSocket) checkMiddlewareFunc(rv reflect.Value) error {
 }
 
 func (s *serverSocket) callMiddlewares(values []reflect.Value) error {
+	// Middlewares run without the mutex held: a middleware may call Use.
 	s.middlewareFuncsMu.RLock()
-	defer s.middlewareFuncsMu.RUnlock()
+	funcs := make([]reflect.Value, len(s.middlewareFuncs))
+	copy(funcs, s.middlewareFuncs)
+	s.middlewareFuncsMu.RUnlock()
 
-	for _, f := range s.middlewareFuncs {
+	for _, f := range funcs {
 		err := s.callMiddlewareFunc(f, values)
 		if err != nil {
 			return err
